@@ -3,6 +3,7 @@ import PytmeModel.Proofs.Circ
 import PytmeModel.Proofs.Common
 import PytmeModel.Proofs.C01Field
 import PytmeModel.Proofs.C01Textbook
+import PytmeModel.Proofs.DftConv
 import Mathlib.Algebra.BigOperators.Group.Finset.Basic
 import Mathlib.Tactic.Ring
 import Mathlib.Tactic.Linarith
@@ -568,6 +569,17 @@ theorem flc_code_eq_textbook_binary_rot3 (sqrt : α → α) (hs : SqrtOk sqrt) (
   flc_code_eq_textbook_binary sqrt hs eps C [a, b, c] _ (rotSum_grid3 R a b c hR) f f2 g w hbin hn hvar
 
 end textbook
+
+/-! ## why a product of transforms is `circ`: the convolution theorem (1-D, any commutative ring) -/
+
+/-- **Convolution theorem.**  For any commutative ring and any `ω` with `ω^N = 1` (for ℂ: `ω = exp(-2πi/N)`), the
+length-`N` discrete Fourier transform of the model's circular convolution `circ` is the product of the transforms of
+its operands — the fact behind reading `irfftn(rfftn(a)·rfftn(b))` as `circ` (n-D transforms are separable products
+of 1-D ones).  What stays trusted is that pyFFTW computes this transform and its inverse. -/
+theorem circ_dft_is_product_1d {R : Type} [CommRing R] (N : Nat) (ω : R) (hω : ω ^ N = 1) (a b : List Int → R) (k : Nat) :
+    dftN N ω (fun u => circ [N] a b [(u : Int)]) k
+      = dftN N ω (fun j => a [(j : Int)]) k * dftN N ω (fun r => b [(r : Int)]) k :=
+  dft_circ1 N ω hω a b k
 
 /-! ## zero extension of arrays has box support; non-vacuity -/
 
